@@ -7,6 +7,8 @@ package main
 import (
 	"fmt"
 	"go/token"
+	"go/types"
+	"sort"
 	"strings"
 
 	"golang.org/x/tools/go/ssa"
@@ -27,7 +29,7 @@ func ruleR28() *Rule {
 	return &Rule{
 		ID:    "R28",
 		Title: "TERM-ACCUMULATORS: per-term accumulators reused across terms are reset after each term is written",
-		Props: []string{"C01", "C06", "C09", "C13"},
+		Props: []string{"C01", "C06", "C09", "C13", "C08"},
 		Floor: floorFor("R28"),
 		Run: func(c *RuleCtx) {
 			p := c.p
@@ -190,7 +192,579 @@ func ruleR28() *Rule {
 					}
 				}
 			}
+			r28FlushOnChange(c, wp)
+			r28PerRoundMemo(c)
 			c.check(nSites >= 2, "sites", "-", "call sites of writePostings are found (confirmed by hand: build writer, merge term closure)", fmt.Sprintf("found %d", nSites))
 		},
 	}
+}
+
+// r28FlushOnChange (R28c FLUSH-ON-CHANGE, C06/C08). The merge collects the postings of one term over
+// several iterations of its term loop and writes them out through a per-term closure (the one that
+// calls writePostings) when the term changes. The previous term is a byte slice, and the empty term is a
+// legitimate term whose copy is a nil / zero-length slice: so whether the previous term is nil or empty
+// must never decide that an iteration goes round without the flush. Decided on the loop's CFG: take
+// away the blocks that call the closure and the "equal" edge of the comparison of the previous term with
+// the current one; on what remains, no test of the previous term's nil-ness or length may lie on a way
+// from the loop head back to it.
+func r28FlushOnChange(c *RuleCtx, wp *ssa.Function) {
+	p := c.p
+	n := 0
+	for _, cs := range p.callersOf(wp) {
+		cl := cs.Parent()
+		if !p.InZap(cl) || cl.Parent() == nil {
+			continue
+		}
+		parent := cl.Parent()
+		fname := funcShortName(parent)
+		// call sites of the closure in its parent
+		isFlush := func(in ssa.Instruction) (ssa.Value, bool) {
+			call, ok := in.(ssa.CallInstruction)
+			if !ok {
+				return nil, false
+			}
+			v := call.Common().Value
+			if u, ok := v.(*ssa.UnOp); ok && u.Op == token.MUL {
+				if cell := cellOf(u.X); cell != nil {
+					for _, st := range cellStores(cell) {
+						if mc, ok := st.Val.(*ssa.MakeClosure); ok && mc.Fn == ssa.Value(cl) {
+							v = mc
+						}
+					}
+				}
+			}
+			mc, ok := v.(*ssa.MakeClosure)
+			if !ok || mc.Fn != ssa.Value(cl) || len(call.Common().Args) == 0 {
+				return nil, false
+			}
+			return call.Common().Args[0], true
+		}
+		loops := naturalLoops(parent)
+		for _, b := range parent.Blocks {
+			for _, in := range b.Instrs {
+				prev, ok := isFlush(in)
+				if !ok {
+					continue
+				}
+				// innermost loop around the call
+				var l *natLoop
+				for _, x := range loops {
+					if x.blocks[b] && (l == nil || len(x.blocks) < len(l.blocks)) {
+						l = x
+					}
+				}
+				if l == nil {
+					continue // the flush after the loop
+				}
+				n++
+				same := func(v ssa.Value) bool {
+					if v == prev {
+						return true
+					}
+					if ph, ok := prev.(*ssa.Phi); ok {
+						for _, e := range ph.Edges {
+							if e == v {
+								return true
+							}
+						}
+					}
+					if ph, ok := v.(*ssa.Phi); ok {
+						for _, e := range ph.Edges {
+							if e == prev {
+								return true
+							}
+						}
+					}
+					return false
+				}
+				isNilTest := func(cond ssa.Value) bool {
+					bo, ok := cond.(*ssa.BinOp)
+					if !ok {
+						return false
+					}
+					for _, pr := range [][2]ssa.Value{{bo.X, bo.Y}, {bo.Y, bo.X}} {
+						if k, ok := pr[1].(*ssa.Const); ok {
+							if same(pr[0]) && k.IsNil() {
+								return true
+							}
+							if call, ok := pr[0].(*ssa.Call); ok {
+								if bi, ok := call.Call.Value.(*ssa.Builtin); ok && bi.Name() == "len" && same(call.Call.Args[0]) {
+									return true
+								}
+							}
+						}
+					}
+					return false
+				}
+				// barrier edges: the "equal" side of bytes.Equal(prev, current) (also through a negation)
+				equalEdge := func(from *ssa.BasicBlock, i int) bool {
+					iff, ok := from.Instrs[len(from.Instrs)-1].(*ssa.If)
+					if !ok {
+						return false
+					}
+					cond, neg := iff.Cond, false
+					for {
+						u, ok := cond.(*ssa.UnOp)
+						if !ok || u.Op != token.NOT {
+							break
+						}
+						cond, neg = u.X, !neg
+					}
+					call, ok := cond.(*ssa.Call)
+					if !ok {
+						return false
+					}
+					f := call.Call.StaticCallee()
+					if f == nil || f.String() != "bytes.Equal" || !(same(call.Call.Args[0]) || same(call.Call.Args[1])) {
+						return false
+					}
+					return (i == 0) != neg // Succs[0] is the true edge
+				}
+				flushBlock := func(x *ssa.BasicBlock) bool {
+					for _, in2 := range x.Instrs {
+						if _, ok := isFlush(in2); ok {
+							return true
+						}
+					}
+					return false
+				}
+				// forward from the head, backward from the latches, inside the loop, without barriers
+				fwd := map[*ssa.BasicBlock]bool{}
+				var walk func(x *ssa.BasicBlock)
+				walk = func(x *ssa.BasicBlock) {
+					if fwd[x] || !l.blocks[x] || flushBlock(x) {
+						return
+					}
+					fwd[x] = true
+					for i, sx := range x.Succs {
+						if sx == l.header || equalEdge(x, i) {
+							continue
+						}
+						walk(sx)
+					}
+				}
+				walk(l.header)
+				back := map[*ssa.BasicBlock]bool{}
+				var walkB func(x *ssa.BasicBlock)
+				walkB = func(x *ssa.BasicBlock) {
+					if back[x] || !fwd[x] {
+						return
+					}
+					back[x] = true
+					if x == l.header {
+						return
+					}
+					for _, px := range x.Preds {
+						for i, sx := range px.Succs {
+							if sx == x && !equalEdge(px, i) {
+								walkB(px)
+							}
+						}
+					}
+				}
+				for _, pr := range l.header.Preds {
+					if l.blocks[pr] {
+						walkB(pr)
+					}
+				}
+				var bad []string
+				var blocks []*ssa.BasicBlock
+				for x := range back {
+					blocks = append(blocks, x)
+				}
+				sort.Slice(blocks, func(i, j int) bool { return blocks[i].Index < blocks[j].Index })
+				for _, x := range blocks {
+					if iff, ok := x.Instrs[len(x.Instrs)-1].(*ssa.If); ok && isNilTest(iff.Cond) {
+						bad = append(bad, "an iteration can go round without the flush by way of "+describeInstr(p, iff)+" (nil-ness / length of the previous term)")
+					}
+				}
+				key := fmt.Sprintf("%s/flush-on-change", fname)
+				if n > 1 {
+					key += fmt.Sprintf("#%d", n)
+				}
+				c.add(statusOf(len(bad) == 0), key, c.pos(in),
+					"in "+fname+" whether the previous term is nil or empty never decides that the collected postings are not written out when the term changes (the empty term is a term)",
+					"a test of the previous term's nil-ness or length lies on a way round the term loop that neither writes the collected postings out nor found the term unchanged: after the empty term the next term inherits its postings", []string{"C06", "C08"}, bad)
+			}
+		}
+	}
+	c.add(statusOf(n >= 1), "flush-on-change/sites", "-", "the call of the per-term closure inside the merge's term loop is found (confirmed by hand: 1)", fmt.Sprintf("found %d", n), []string{"C06", "C08"}, nil)
+}
+
+// r28PerRoundMemo (R28d ROUND-SCOPED IDS, C13/C06). A counter that an outer loop restarts for each of its
+// rounds (`newSynonymID = 0` per field) hands out ids that mean something within that round only. A table
+// that lives longer than a round (allocated outside the outer loop, or reached through such a holder) and
+// receives such ids must therefore be emptied in every round: by a `clear`, by a loop over the holder
+// that resets every element, or by storing a fresh table unconditionally. Allocating it lazily
+// (`if t[i] == nil { t[i] = make(...) }`) is not emptying it. Decided by existence of such a reset inside
+// the outer loop (outside the inner loop that fills the table); which elements are reset is not tracked.
+func r28PerRoundMemo(c *RuleCtx) {
+	p := c.p
+	props := []string{"C13", "C06"}
+	nCounters := 0
+	for _, fn := range p.ZapFuncs {
+		if fn.Parent() != nil || len(fn.Blocks) == 0 {
+			continue
+		}
+		loops := naturalLoops(fn)
+		if len(loops) < 2 {
+			continue
+		}
+		for _, T := range loops {
+			for _, in := range T.header.Instrs {
+				ph, ok := in.(*ssa.Phi)
+				if !ok {
+					break
+				}
+				if b, ok := ph.Type().Underlying().(*types.Basic); !ok || b.Info()&types.IsInteger == 0 {
+					continue
+				}
+				// restarted from a constant by a block of an enclosing loop
+				var F *natLoop
+				for i, pr := range T.header.Preds {
+					if T.blocks[pr] {
+						continue
+					}
+					if _, isK := ph.Edges[i].(*ssa.Const); !isK {
+						continue
+					}
+					for _, l := range loops {
+						if l != T && l.blocks[pr] && l.blocks[T.header] && (F == nil || len(l.blocks) < len(F.blocks)) {
+							F = l
+						}
+					}
+				}
+				if F == nil {
+					continue
+				}
+				// the counter's web: phis and +1 steps
+				web := map[ssa.Value]bool{ph: true}
+				incremented := false
+				for changed := true; changed; {
+					changed = false
+					for b := range T.blocks {
+						for _, in2 := range b.Instrs {
+							switch x := in2.(type) {
+							case *ssa.Phi:
+								if web[x] {
+									continue
+								}
+								for _, e := range x.Edges {
+									if web[e] {
+										web[x] = true
+										changed = true
+										break
+									}
+								}
+							case *ssa.BinOp:
+								if web[x] || x.Op != token.ADD || !web[x.X] {
+									continue
+								}
+								if k, ok := constUint64(x.Y); ok && k == 1 {
+									web[x] = true
+									incremented = true
+									changed = true
+								}
+							}
+						}
+					}
+				}
+				if !incremented {
+					continue
+				}
+				// a counter of hand-outs: some value of the web is stored somewhere (not a plain loop index)
+				nCounters++
+				r28MemoSinks(c, fn, ph, web, T, F, props)
+			}
+		}
+	}
+	c.add(statusOf(nCounters >= 1), "round-ids/counters", "-", "counters that an outer loop restarts for each round are found (pinned tree: newSynonymID in the synonym merge)", fmt.Sprintf("found %d", nCounters), props, nil)
+}
+
+// holdersOf: the allocations a container expression may come from, following loads of elements, look-ups,
+// re-slicing, append and phis back to MakeMap / MakeSlice / Alloc.
+func holdersOf(v ssa.Value, depth int, seen map[ssa.Value]bool, out map[ssa.Instruction]bool) {
+	if v == nil || depth > 10 || seen[v] {
+		return
+	}
+	seen[v] = true
+	switch x := v.(type) {
+	case *ssa.MakeMap:
+		out[x] = true
+	case *ssa.MakeSlice:
+		out[x] = true
+	case *ssa.Alloc:
+		out[x] = true
+		for _, st := range cellStores(x) {
+			holdersOf(st.Val, depth+1, seen, out)
+		}
+		// an array filled element by element (the varargs of append)
+		for _, r := range *x.Referrers() {
+			if ia, ok := r.(*ssa.IndexAddr); ok {
+				for _, r2 := range *ia.Referrers() {
+					if st, ok := r2.(*ssa.Store); ok && st.Addr == ssa.Value(ia) {
+						holdersOf(st.Val, depth+1, seen, out)
+					}
+				}
+			}
+		}
+	case *ssa.Phi:
+		for _, e := range x.Edges {
+			holdersOf(e, depth+1, seen, out)
+		}
+	case *ssa.Slice:
+		holdersOf(x.X, depth+1, seen, out)
+	case *ssa.Extract:
+		holdersOf(x.Tuple, depth+1, seen, out)
+	case *ssa.Lookup:
+		holdersOf(x.X, depth+1, seen, out)
+		// and whatever was put into that map
+		for _, r := range *root(x.X).Referrers() {
+			if mu, ok := r.(*ssa.MapUpdate); ok {
+				holdersOf(mu.Value, depth+1, seen, out)
+			}
+		}
+	case *ssa.UnOp:
+		if x.Op == token.MUL {
+			if ia, ok := x.X.(*ssa.IndexAddr); ok {
+				holdersOf(ia.X, depth+1, seen, out)
+				return
+			}
+			holdersOf(x.X, depth+1, seen, out)
+		}
+	case *ssa.Call:
+		if b, ok := x.Call.Value.(*ssa.Builtin); ok && b.Name() == "append" && len(x.Call.Args) > 0 {
+			holdersOf(x.Call.Args[0], depth+1, seen, out)
+			if len(x.Call.Args) > 1 {
+				holdersOf(x.Call.Args[1], depth+1, seen, out) // the appended elements (through the varargs slice)
+			}
+		}
+	case *ssa.IndexAddr:
+		holdersOf(x.X, depth+1, seen, out)
+		// elements stored through this array (varargs of append)
+		for _, r := range *x.Referrers() {
+			if st, ok := r.(*ssa.Store); ok {
+				holdersOf(st.Val, depth+1, seen, out)
+			}
+		}
+	}
+}
+
+func r28MemoSinks(c *RuleCtx, fn *ssa.Function, ph *ssa.Phi, web map[ssa.Value]bool, T, F *natLoop, props []string) {
+	p := c.p
+	// taint: the web, arithmetic on it, and what is read back from containers it was stored into
+	taint := map[ssa.Value]bool{}
+	for v := range web {
+		taint[v] = true
+	}
+	holds := map[ssa.Value]bool{} // roots of containers holding tainted values
+	type sink struct {
+		in   ssa.Instruction
+		cont ssa.Value
+	}
+	var sinks []sink
+	for changed := true; changed; {
+		changed = false
+		for b := range F.blocks {
+			for _, in := range b.Instrs {
+				switch x := in.(type) {
+				case *ssa.MapUpdate:
+					if taint[x.Value] && !holds[root(x.Map)] {
+						holds[root(x.Map)] = true
+						changed = true
+					}
+				case *ssa.Store:
+					if ia, ok := x.Addr.(*ssa.IndexAddr); ok && taint[x.Val] && !holds[root(ia.X)] {
+						holds[root(ia.X)] = true
+						changed = true
+					}
+				case *ssa.Lookup:
+					if holds[root(x.X)] && !taint[x] {
+						taint[x] = true
+						changed = true
+					}
+				case *ssa.Extract:
+					if taint[x.Tuple] && x.Index == 0 && !taint[x] {
+						taint[x] = true
+						changed = true
+					}
+				case *ssa.UnOp:
+					if x.Op == token.MUL && !taint[x] {
+						if ia, ok := x.X.(*ssa.IndexAddr); ok && holds[root(ia.X)] {
+							taint[x] = true
+							changed = true
+						}
+					}
+				case *ssa.BinOp:
+					if !taint[x] && (x.Op == token.ADD || x.Op == token.SUB) && (taint[x.X] || taint[x.Y]) {
+						taint[x] = true
+						changed = true
+					}
+				case *ssa.Phi:
+					if !taint[x] {
+						for _, e := range x.Edges {
+							if taint[e] {
+								taint[x] = true
+								changed = true
+								break
+							}
+						}
+					}
+				case *ssa.Convert:
+					if taint[x.X] && !taint[x] {
+						taint[x] = true
+						changed = true
+					}
+				}
+			}
+		}
+	}
+	for b := range F.blocks {
+		for _, in := range b.Instrs {
+			switch x := in.(type) {
+			case *ssa.MapUpdate:
+				if taint[x.Value] {
+					sinks = append(sinks, sink{in, x.Map})
+				}
+			case *ssa.Store:
+				if ia, ok := x.Addr.(*ssa.IndexAddr); ok && taint[x.Val] {
+					sinks = append(sinks, sink{in, ia.X})
+				}
+			}
+		}
+	}
+	sort.Slice(sinks, func(i, j int) bool { return sinks[i].in.Pos() < sinks[j].in.Pos() })
+	isReset := func(v ssa.Value) bool {
+		switch x := v.(type) {
+		case *ssa.MakeMap, *ssa.MakeSlice:
+			return true
+		case *ssa.Const:
+			return x.IsNil()
+		case *ssa.Slice:
+			if k, ok := constInt64(x.High); ok && k == 0 {
+				return true
+			}
+		}
+		return false
+	}
+	done := map[ssa.Instruction]bool{}
+	for _, s := range sinks {
+		hs := map[ssa.Instruction]bool{}
+		holdersOf(s.cont, 0, map[ssa.Value]bool{}, hs)
+		for h := range hs {
+			if F.blocks[h.Block()] || done[h] {
+				continue // made afresh in every round
+			}
+			done[h] = true
+			reaches := func(v ssa.Value) bool {
+				m := map[ssa.Instruction]bool{}
+				holdersOf(v, 0, map[ssa.Value]bool{}, m)
+				return m[h]
+			}
+			var evidence []string
+			for b := range F.blocks {
+				if T.blocks[b] {
+					continue
+				}
+				for _, in := range b.Instrs {
+					switch x := in.(type) {
+					case *ssa.Call:
+						if bi, ok := x.Call.Value.(*ssa.Builtin); ok && bi.Name() == "clear" && len(x.Call.Args) == 1 && reaches(x.Call.Args[0]) {
+							evidence = append(evidence, "clear at "+c.pos(x))
+						}
+					case *ssa.Slice:
+						// `t = t[:0]` — the holder itself is cut back to nothing
+						if k, ok := constInt64(x.High); ok && k == 0 && reaches(x.X) {
+							if _, isHolder := h.(*ssa.MakeSlice); isHolder && holderIsDirect(x.X, h) {
+								evidence = append(evidence, "cut back to length 0 at "+c.pos(x))
+							}
+						}
+					case *ssa.MapUpdate:
+						if isReset(x.Value) && reaches(x.Map) && !onlyWhenAbsent(fn, x, x.Map) {
+							evidence = append(evidence, "element reset at "+c.pos(x))
+						}
+					case *ssa.Store:
+						if ia, ok := x.Addr.(*ssa.IndexAddr); ok && isReset(x.Val) && reaches(ia.X) && !onlyWhenAbsent(fn, x, ia.X) {
+							evidence = append(evidence, "element reset at "+c.pos(x))
+						}
+					}
+				}
+			}
+			name := "table"
+			if hv, ok := h.(ssa.Value); ok {
+				name = hv.Name()
+				if mk, ok := h.(*ssa.MakeMap); ok {
+					name = tableNameOfMap(mk)
+				} else if nm := assignedNameAt(fn, h.Pos()); nm != "" {
+					name = nm
+				} else if al, ok := h.(*ssa.Alloc); ok && al.Comment != "" {
+					name = al.Comment
+				}
+			}
+			sort.Strings(evidence)
+			c.add(statusOf(len(evidence) > 0), fmt.Sprintf("round-ids/%s/%s/%s", funcShortName(fn), ph.Comment, name), c.pos(s.in),
+				fmt.Sprintf("in %s the table %s, which outlives a round of the loop at %s and receives ids of the counter %s that restarts every round, is emptied in every round", funcShortName(fn), name, p.instrPos(F.header.Instrs[len(F.header.Instrs)-1]), ph.Comment),
+				"nothing inside the outer loop empties the table (a lazy allocation under a nil test does not): ids of the previous round are found in it and taken for ids of this round", props, nil)
+		}
+	}
+}
+
+// onlyWhenAbsent: the store is control-dependent on finding that very element nil / absent (lazy allocation).
+func onlyWhenAbsent(fn *ssa.Function, at ssa.Instruction, cont ssa.Value) bool {
+	for _, d := range controlDeps(fn)[at.Block()] {
+		cond := branchCond(d.Branch)
+		bo, ok := cond.(*ssa.BinOp)
+		if ok && (bo.Op == token.EQL || bo.Op == token.NEQ) && (isNilConst(bo.X) || isNilConst(bo.Y)) {
+			x := bo.X
+			if isNilConst(x) {
+				x = bo.Y
+			}
+			hs, hc := map[ssa.Instruction]bool{}, map[ssa.Instruction]bool{}
+			holdersOf(x, 0, map[ssa.Value]bool{}, hs)
+			holdersOf(cont, 0, map[ssa.Value]bool{}, hc)
+			for h := range hs {
+				if hc[h] {
+					return true
+				}
+			}
+		}
+		// `_, ok := m[k]; if !ok { m[k] = make(...) }`
+		if ex, ok := cond.(*ssa.Extract); ok && ex.Index == 1 {
+			if lk, ok := ex.Tuple.(*ssa.Lookup); ok && root(lk.X) == root(cont) {
+				return true
+			}
+		}
+	}
+	return false
+}
+
+// holderIsDirect: v is the holder itself (through phis, re-slicing and append), not something kept in it.
+func holderIsDirect(v ssa.Value, h ssa.Instruction) bool {
+	seen := map[ssa.Value]bool{}
+	var walk func(v ssa.Value, depth int) bool
+	walk = func(v ssa.Value, depth int) bool {
+		if v == nil || depth > 8 || seen[v] {
+			return false
+		}
+		seen[v] = true
+		if in, ok := v.(ssa.Instruction); ok && in == h {
+			return true
+		}
+		switch x := v.(type) {
+		case *ssa.Phi:
+			for _, e := range x.Edges {
+				if walk(e, depth+1) {
+					return true
+				}
+			}
+		case *ssa.Slice:
+			return walk(x.X, depth+1)
+		case *ssa.Call:
+			if b, ok := x.Call.Value.(*ssa.Builtin); ok && b.Name() == "append" && len(x.Call.Args) > 0 {
+				return walk(x.Call.Args[0], depth+1)
+			}
+		}
+		return false
+	}
+	return walk(v, 0)
 }
